@@ -282,17 +282,19 @@ def check_backend(case):
         with tempfile.NamedTemporaryFile("w", suffix=".json", prefix="vp_c01_", delete=False) as f:
             json.dump(case, f)
             path = f.name
+        from ..procs import run_group
+
         try:
-            p = subprocess.run([sys.executable, "-m", "vp.props.c01_child", path], stdout=subprocess.PIPE, stderr=subprocess.PIPE, text=True, timeout=90)
-        except subprocess.TimeoutExpired:
-            return dict(ok=False, kind="oracle", clause="timeout", sig={"backend": case["backend"], "clause": "timeout"}, nontrivial=True,
-                        desc=["backend=" + case["backend"], "child_timeout"], detail="the evaluator did not finish the history within 90 s in a fresh interpreter")
+            rc, stdout, stderr = run_group([sys.executable, "-m", "vp.props.c01_child", path], 90)
         finally:
             os.unlink(path)
-        if "@@RESULT@@" not in p.stdout:
+        if rc is None:
+            return dict(ok=False, kind="oracle", clause="timeout", sig={"backend": case["backend"], "clause": "timeout"}, nontrivial=True,
+                        desc=["backend=" + case["backend"], "child_timeout"], detail="the evaluator did not finish the history within 90 s in a fresh interpreter")
+        if "@@RESULT@@" not in stdout:
             return dict(ok=False, kind="oracle", clause="exception:child", sig={"backend": case["backend"], "clause": "exception"}, nontrivial=True,
-                        desc=["backend=" + case["backend"], "child_failed"], detail=p.stderr[-2000:])
-        out = json.loads(p.stdout.split("@@RESULT@@")[1].strip())
+                        desc=["backend=" + case["backend"], "child_failed"], detail=stderr[-2000:])
+        out = json.loads(stdout.split("@@RESULT@@")[1].strip())
         return verdict(case, out["hist"], out["flags"])
     hist, flags = run_backend(case)
     return verdict(case, hist, flags)
